@@ -15,7 +15,11 @@ P = {'id': 'C14',
               'b64_encoded_length',
               'utf8_dfa_correct',
               'utf8_simd_is_scalar',
-              'utf8_count_is_chars'],
+              'utf8_count_is_chars',
+              'select_in_word_spec',
+              'select_in_word_total',
+              'bit_reverse_spec',
+              'bit_reverse_involutive'],
  'trusted': ['the vector intrinsics themselves are not modelled: a W-lane compare + movemask + trailing_zeros is taken to be "first differing / matching lane", '
              'CRC32 r32, r/m is taken to be 8k steps of the bit-serial division, PCMPESTRI and PDEP/PEXT/BZHI are covered by the differential oracle only',
              'tiers below the native one are reached through the repo hook ZIPORA_VERIF_DISABLE (masks detected CPU features, add-only, cfg(zipora_verif)); '
